@@ -116,13 +116,13 @@ fn perms(v: &[usize]) -> Vec<Vec<usize>> {
 
 /// all checks of C11 on one partition (given over the line with n positions); returns violation messages
 fn c11_partition(n: usize, p: &Part, rep: &mut Report) -> Vec<String> {
+    publish_case(|| json!({"kind": "partition", "line": n, "part": p}));
     let us = units(n);
     let vals = query_values(&us);
     let mut msgs: Vec<String> = vec![];
     let ivs = raw(&us, p);
     let r = guarded(|| {
         let mut msgs = vec![];
-        let cp = build_push(&us, p);
         // structure, complement witness, class ids and picks of a partition, however it was built
         let gap_units: Vec<usize> = (0..n).filter(|&u| class_of_unit(p, u).is_none()).collect();
         let comp_empty = gap_units.is_empty();
@@ -198,11 +198,77 @@ fn c11_partition(n: usize, p: &Part, rep: &mut Report) -> Vec<String> {
                 }
             }
         };
+        // the queries of the statement, on a partition however it was built
+        let mut outcomes = [0u64; 3];
+        let mut nq = 0u64;
+        let mut queries = |cp: &CharPartition, how: &str, msgs: &mut Vec<String>| {
+            if msgs.len() > 6 {
+                return;
+            }
+            nq += (vals.len() * (vals.len() + 1) / 2) as u64 + vals.len() as u64;
+            // class_of_char
+            for &c in &vals {
+                let exp = match class_of_unit(p, unit_of(&us, c)) {
+                    Some(i) => ClassId::Interval(i),
+                    None => ClassId::Complement,
+                };
+                if cp.class_of_char(c) != exp {
+                    msgs.push(format!("{}: class_of_char({}) = {}, expected {}", how, c, cp.class_of_char(c), exp));
+                }
+            }
+            // interval_cover / class_of_set / good_char_set
+                    for (ai, &a) in vals.iter().enumerate() {
+                for &b in &vals[ai..] {
+                    let (ua, ub) = (unit_of(&us, a), unit_of(&us, b));
+                    let classes: BTreeSet<Option<usize>> = (ua..=ub).map(|u| class_of_unit(p, u)).collect();
+                    let exp = if classes.len() == 1 {
+                        match classes.iter().next().unwrap() {
+                            Some(i) => CoverResult::CoveredBy(*i),
+                            None => CoverResult::DisjointFromAll,
+                        }
+                    } else {
+                        CoverResult::Overlaps
+                    };
+                    let set = CharSet::range(a, b);
+                    let got = cp.interval_cover(&set);
+                    match got {
+                        CoverResult::CoveredBy(_) => outcomes[0] += 1,
+                        CoverResult::DisjointFromAll => outcomes[1] += 1,
+                        CoverResult::Overlaps => outcomes[2] += 1,
+                    }
+                    if got != exp {
+                        msgs.push(format!("{}: interval_cover([{},{}]) = {}, expected {}", how, a, b, got, exp));
+                    }
+                    let exp_cls = match exp {
+                        CoverResult::CoveredBy(i) => Ok(ClassId::Interval(i)),
+                        CoverResult::DisjointFromAll => Ok(ClassId::Complement),
+                        CoverResult::Overlaps => Err(()),
+                    };
+                    let got_cls = cp.class_of_set(&set);
+                    let same = match (&got_cls, &exp_cls) {
+                        (Ok(x), Ok(y)) => x == y,
+                        (Err(aws_smt_strings::errors::Error::AmbiguousCharSet), Err(())) => true,
+                        _ => false,
+                    };
+                    if !same {
+                        msgs.push(format!("{}: class_of_set([{},{}]) = {:?}, expected {:?}", how, a, b, got_cls, exp_cls.map_err(|_| "AmbiguousCharSet")));
+                    }
+                    if cp.good_char_set(&set) != exp_cls.is_ok() {
+                        msgs.push(format!("{}: good_char_set([{},{}]) = {}", how, a, b, cp.good_char_set(&set)));
+                    }
+                    if msgs.len() > 6 {
+                        return;
+                    }
+                }
+            }
+        };
         let cp = build_push(&us, p);
         basic(&cp, "built by push", &mut msgs);
+        queries(&cp, "built by push", &mut msgs);
         if p.len() == 1 {
             let q = CharPartition::from_set(&CharSet::range(ivs[0].0, ivs[0].1));
             basic(&q, "built by from_set", &mut msgs);
+            queries(&q, "built by from_set", &mut msgs);
         }
         // try_from_list / try_from_iter: succeed on disjoint input and give the same partition in every input order
         if p.len() <= 4 {
@@ -215,9 +281,15 @@ fn c11_partition(n: usize, p: &Part, rep: &mut Report) -> Vec<String> {
                         Ok(q) => match &first {
                             None => {
                                 basic(&q, &format!("built by {} in order {:?}", name, order), &mut msgs);
+                                queries(&q, &format!("built by {} in order {:?}", name, order), &mut msgs);
                                 first = Some(q);
                             }
                             Some(f) => {
+                                // the other entry point in the first order, and both in the last (reversed) order
+                                if order == idx || order.iter().rev().copied().collect::<Vec<_>>() == idx {
+                                    basic(&q, &format!("built by {} in order {:?}", name, order), &mut msgs);
+                                    queries(&q, &format!("built by {} in order {:?}", name, order), &mut msgs);
+                                }
                                 if q != *f {
                                     msgs.push(format!("{} in order {:?} gives {} (witness {}), but in sorted order {} (witness {})", name, order, q, q.pick_complement(), f, f.pick_complement()));
                                     basic(&q, &format!("built by {} in order {:?}", name, order), &mut msgs);
@@ -229,63 +301,6 @@ fn c11_partition(n: usize, p: &Part, rep: &mut Report) -> Vec<String> {
                 }
             }
         }
-        // class_of_char
-        for &c in &vals {
-            let exp = match class_of_unit(p, unit_of(&us, c)) {
-                Some(i) => ClassId::Interval(i),
-                None => ClassId::Complement,
-            };
-            if cp.class_of_char(c) != exp {
-                msgs.push(format!("class_of_char({}) = {}, expected {}", c, cp.class_of_char(c), exp));
-            }
-        }
-        // interval_cover / class_of_set / good_char_set
-        let mut outcomes = [0u64; 3];
-        for (ai, &a) in vals.iter().enumerate() {
-            for &b in &vals[ai..] {
-                let (ua, ub) = (unit_of(&us, a), unit_of(&us, b));
-                let classes: BTreeSet<Option<usize>> = (ua..=ub).map(|u| class_of_unit(p, u)).collect();
-                let exp = if classes.len() == 1 {
-                    match classes.iter().next().unwrap() {
-                        Some(i) => CoverResult::CoveredBy(*i),
-                        None => CoverResult::DisjointFromAll,
-                    }
-                } else {
-                    CoverResult::Overlaps
-                };
-                let set = CharSet::range(a, b);
-                let got = cp.interval_cover(&set);
-                match got {
-                    CoverResult::CoveredBy(_) => outcomes[0] += 1,
-                    CoverResult::DisjointFromAll => outcomes[1] += 1,
-                    CoverResult::Overlaps => outcomes[2] += 1,
-                }
-                if got != exp {
-                    msgs.push(format!("interval_cover([{},{}]) = {}, expected {}", a, b, got, exp));
-                }
-                let exp_cls = match exp {
-                    CoverResult::CoveredBy(i) => Ok(ClassId::Interval(i)),
-                    CoverResult::DisjointFromAll => Ok(ClassId::Complement),
-                    CoverResult::Overlaps => Err(()),
-                };
-                let got_cls = cp.class_of_set(&set);
-                let same = match (&got_cls, &exp_cls) {
-                    (Ok(x), Ok(y)) => x == y,
-                    (Err(aws_smt_strings::errors::Error::AmbiguousCharSet), Err(())) => true,
-                    _ => false,
-                };
-                if !same {
-                    msgs.push(format!("class_of_set([{},{}]) = {:?}, expected {:?}", a, b, got_cls, exp_cls.map_err(|_| "AmbiguousCharSet")));
-                }
-                if cp.good_char_set(&set) != exp_cls.is_ok() {
-                    msgs.push(format!("good_char_set([{},{}]) = {}", a, b, cp.good_char_set(&set)));
-                }
-                if msgs.len() > 6 {
-                    return (msgs, outcomes, 0);
-                }
-            }
-        }
-        let nq = (vals.len() * (vals.len() + 1) / 2) as u64;
         (msgs, outcomes, nq)
     });
     match r {
@@ -294,7 +309,7 @@ fn c11_partition(n: usize, p: &Part, rep: &mut Report) -> Vec<String> {
             rep.hist_n("cover_results", "CoveredBy", outcomes[0]);
             rep.hist_n("cover_results", "DisjointFromAll", outcomes[1]);
             rep.hist_n("cover_results", "Overlaps", outcomes[2]);
-            rep.add("queries", nq + vals.len() as u64);
+            rep.add("queries", nq);
         }
         Err(e) => msgs.push(format!("partition {:?}: {}", ivs, e)),
     }
@@ -303,6 +318,7 @@ fn c11_partition(n: usize, p: &Part, rep: &mut Report) -> Vec<String> {
 
 /// try_from_list on an arbitrary (possibly overlapping) list of intervals
 fn c11_list(n: usize, l: &[(usize, usize)]) -> Option<String> {
+    publish_case(|| json!({"kind": "list", "line": n, "list": l}));
     let us = units(n);
     let sets: Vec<CharSet> = l.iter().map(|&(i, j)| CharSet::range(us[i].0, us[j].1)).collect();
     let disjoint = (0..l.len()).all(|a| (a + 1..l.len()).all(|b| l[a].1 < l[b].0 || l[b].1 < l[a].0));
@@ -353,6 +369,7 @@ fn long_partitions(tier: Tier) -> Vec<(usize, u32)> {
 }
 
 fn c11_long(len: usize, pat: u32, rep: &mut Report) -> Option<String> {
+    publish_case(|| json!({"kind": "long", "len": len, "pattern": pat}));
     let ivs = long_layout(len, pat);
     let r = guarded(|| {
         let mut cp = CharPartition::new();
@@ -545,7 +562,7 @@ fn c11_meta(ctx: &Ctx) -> Meta {
 }
 
 pub fn c11_engine() -> SimpleEngine {
-    SimpleEngine { name: "c11", nb: |_| NB, run: c11_run, replay: c11_replay, meta: c11_meta, hang_violation: false }
+    SimpleEngine { name: "c11", nb: |_| NB, run: c11_run, replay: c11_replay, meta: c11_meta, hang_violation: true }
 }
 
 // =============================================================================================
@@ -643,6 +660,7 @@ fn shifted_layout(len: usize, pat: u32, shift: u32) -> Vec<(u32, u32)> {
 /// merge of long partitions (any size-dependent path of the sweep): every listed layout against every other, and
 /// folds of three
 fn c12_long(ls: &[(usize, u32, u32)]) -> Option<String> {
+    publish_case(|| json!({"kind": "long", "layouts": ls.iter().map(|l| vec![l.0 as u64, l.1 as u64, l.2 as u64]).collect::<Vec<_>>()}));
     let raws: Vec<Vec<(u32, u32)>> = ls.iter().map(|&(len, pat, sh)| shifted_layout(len, pat, sh)).collect();
     let r = guarded(|| {
         let cps: Vec<CharPartition> = raws
@@ -690,6 +708,7 @@ fn c12_long_pool(tier: Tier) -> Vec<(usize, u32, u32)> {
 }
 
 fn c12_pair(n: usize, p1: &Part, p2: &Part) -> Option<String> {
+    publish_case(|| json!({"kind": "pair", "line": n, "p1": p1, "p2": p2}));
     let us = units(n);
     let r = guarded(|| {
         let (a, b) = (build_push(&us, p1), build_push(&us, p2));
@@ -703,6 +722,7 @@ fn c12_pair(n: usize, p1: &Part, p2: &Part) -> Option<String> {
 }
 
 fn c12_list(n: usize, ps: &[Part]) -> Option<String> {
+    publish_case(|| json!({"kind": "list", "line": n, "parts": ps}));
     let us = units(n);
     let r = guarded(|| {
         let cps: Vec<CharPartition> = ps.iter().map(|p| build_push(&us, p)).collect();
@@ -734,6 +754,7 @@ fn c12_list(n: usize, ps: &[Part]) -> Option<String> {
 
 /// the list merged in the given order only (the enumeration supplies every order itself)
 fn c12_list_given(n: usize, ps: &[Part]) -> Option<String> {
+    publish_case(|| json!({"kind": "list", "line": n, "parts": ps}));
     let us = units(n);
     let r = guarded(|| {
         let cps: Vec<CharPartition> = ps.iter().map(|p| build_push(&us, p)).collect();
@@ -768,6 +789,7 @@ fn c12_run(ctx: &Ctx, batch: usize, nb: usize, rep: &mut Report) {
         for (j, p2) in parts.iter().enumerate() {
             rep.inc("evaluations");
             // fast path: the real call on prebuilt partitions; the slow path re-checks with messages
+            publish_case(|| json!({"kind": "pair", "line": n, "p1": p1, "p2": p2}));
             let ok = guarded(|| {
                 let m = merge_partitions(&cps[i], &cps[j]);
                 check_merged(&us, n, &[p1, p2], &m, "merge").is_none()
@@ -782,6 +804,7 @@ fn c12_run(ctx: &Ctx, batch: usize, nb: usize, rep: &mut Report) {
             }
             // the same pair as a two-element list
             rep.inc("evaluations");
+            publish_case(|| json!({"kind": "list", "line": n, "parts": [p1, p2]}));
             let ok2 = guarded(|| {
                 let m = merge_partition_list([&cps[i], &cps[j]].into_iter());
                 check_merged(&us, n, &[p1, p2], &m, "merge_partition_list").is_none()
@@ -926,7 +949,7 @@ fn c12_meta(ctx: &Ctx) -> Meta {
 }
 
 pub fn c12_engine() -> SimpleEngine {
-    SimpleEngine { name: "c12", nb: |_| NB, run: c12_run, replay: c12_replay, meta: c12_meta, hang_violation: false }
+    SimpleEngine { name: "c12", nb: |_| NB, run: c12_run, replay: c12_replay, meta: c12_meta, hang_violation: true }
 }
 
 // =============================================================================================
@@ -941,6 +964,7 @@ fn c20_line(tier: Tier) -> usize {
 }
 
 fn c20_single(n: usize, a: (usize, usize)) -> Option<String> {
+    publish_case(|| json!({"kind": "single", "line": n, "a": [a.0, a.1]}));
     let us = units(n);
     let vals = query_values(&us);
     let r = guarded(|| {
@@ -986,6 +1010,7 @@ fn c20_single(n: usize, a: (usize, usize)) -> Option<String> {
 }
 
 fn c20_pair(n: usize, a: (usize, usize), b: (usize, usize)) -> Option<String> {
+    publish_case(|| json!({"kind": "pair", "line": n, "a": [a.0, a.1], "b": [b.0, b.1]}));
     let us = units(n);
     let cs = |x: (usize, usize)| CharSet::range(us[x.0].0, us[x.1].1);
     let r = guarded(|| {
@@ -1037,6 +1062,7 @@ fn c20_pair(n: usize, a: (usize, usize), b: (usize, usize)) -> Option<String> {
 }
 
 fn c20_triple(n: usize, l: &[(usize, usize)]) -> Option<String> {
+    publish_case(|| json!({"kind": "list", "line": n, "list": l}));
     let us = units(n);
     let r = guarded(|| {
         let sets: Vec<CharSet> = l.iter().map(|x| CharSet::range(us[x.0].0, us[x.1].1)).collect();
@@ -1122,7 +1148,7 @@ fn c20_meta(ctx: &Ctx) -> Meta {
 }
 
 pub fn c20_engine() -> SimpleEngine {
-    SimpleEngine { name: "c20", nb: |_| NB, run: c20_run, replay: c20_replay, meta: c20_meta, hang_violation: false }
+    SimpleEngine { name: "c20", nb: |_| NB, run: c20_run, replay: c20_replay, meta: c20_meta, hang_violation: true }
 }
 
 // =============================================================================================
@@ -1130,6 +1156,9 @@ pub fn c20_engine() -> SimpleEngine {
 
 const H: u32 = 900;
 type R = (u32, Option<u32>);
+fn rj(r: R) -> Value {
+    json!([r.0, r.1])
+}
 
 fn lr(r: R) -> LoopRange {
     match r.1 {
@@ -1156,6 +1185,7 @@ fn below(s: &BTreeSet<u32>, lim: u32) -> BTreeSet<u32> {
 }
 
 fn c15_single(r: R, nmax: u32) -> Option<String> {
+    publish_case(|| json!({"kind": "single", "r": rj(r), "n": nmax}));
     let lim = H / 3;
     let res = guarded(|| {
         let x = lr(r);
@@ -1214,6 +1244,7 @@ fn c15_single(r: R, nmax: u32) -> Option<String> {
 }
 
 fn c15_pair(r: R, s: R) -> Option<String> {
+    publish_case(|| json!({"kind": "pair", "r": rj(r), "s": rj(s)}));
     let lim = H / 3;
     let res = guarded(|| {
         let (x, y) = (lr(r), lr(s));
@@ -1240,8 +1271,18 @@ fn c15_pair(r: R, s: R) -> Option<String> {
         }
         // mul contains every product
         let m = x.mul(&y);
-        for a in set_of(r).into_iter().take(16) {
-            for b in set_of(s).into_iter().take(16) {
+        // members to multiply: the first 16, the last one of a finite range, far-away members of an infinite one (a
+        // finite result, however large its end, cannot contain all products of an infinite operand)
+        let members = |q: R| -> Vec<u32> {
+            let mut v: Vec<u32> = set_of(q).into_iter().take(16).collect();
+            match q.1 {
+                Some(e) => v.push(e),
+                None => v.extend([q.0 + 1000, q.0 + 50_000]),
+            }
+            v
+        };
+        for a in members(r) {
+            for b in members(s) {
                 if !m.contains(a * b) {
                     return Some(format!("{}.mul({}) = {} does not contain {}*{}", show_r(r), show_r(s), m, a, b));
                 }
@@ -1297,6 +1338,7 @@ fn closed_form_exact(r: R, s: R) -> bool {
 
 /// large operands: only the exactness criterion and mul's hull (products that overflow u32 panic as documented and are skipped)
 fn c15_big(r: R, s: R) -> Option<String> {
+    publish_case(|| json!({"kind": "big", "r": rj(r), "s": rj(s)}));
     // set inclusion and membership need no arithmetic: checked for every pair
     let inc = guarded(|| {
         let (x, y) = (lr(r), lr(s));
@@ -1420,7 +1462,6 @@ fn c15_n(tier: Tier) -> u32 {
 fn c15_run(ctx: &Ctx, batch: usize, nb: usize, rep: &mut Report) {
     let nmax = c15_n(ctx.tier);
     let rs = c15_ranges(nmax);
-    let rj = |r: R| json!([r.0, r.1]);
     for (k, &r) in rs.iter().enumerate() {
         if k % nb != batch {
             continue;
@@ -1500,5 +1541,5 @@ fn c15_meta(ctx: &Ctx) -> Meta {
 }
 
 pub fn c15_engine() -> SimpleEngine {
-    SimpleEngine { name: "c15", nb: |_| NB, run: c15_run, replay: c15_replay, meta: c15_meta, hang_violation: false }
+    SimpleEngine { name: "c15", nb: |_| NB, run: c15_run, replay: c15_replay, meta: c15_meta, hang_violation: true }
 }
